@@ -489,13 +489,15 @@ def _law_sig(a):
     if _estimated_union(a):
         return "union-of-estimated-volumes"
     if _overlapping_union(a):
-        return "overlapping-union"
+        # inside a product the union is sampled with ONE point per row (each row has its own partner point), where the
+        # overlap cannot be estimated from the row's own candidates
+        return "overlapping-union-in-product" if G.has_kind_prod(a) else "overlapping-union"
     if has_kind(a, ("poly",)):
         return "concave-polygon"
     return "%s/%s" % (top_sig(a), "+".join(sorted(leaf_flavors(a))))
 
 
-FAMILIES = ("boolean-boundary", "nested-boolean-boundary", "overlapping-union", "concave-polygon", "boolean-boundary-exact-length", "union-of-estimated-volumes")
+FAMILIES = ("boolean-boundary", "nested-boolean-boundary", "overlapping-union", "overlapping-union-in-product", "concave-polygon", "boolean-boundary-exact-length", "union-of-estimated-volumes")
 SEVERE = 0.6     # a known-biased family deviating more than this (grossly broken, not merely biased) gets its own key
 
 
